@@ -233,6 +233,7 @@ func cmdCheck(args []string) int {
 	reported := map[string]bool{}
 	invBroken := map[string]bool{}
 	reachOK := map[string]bool{}
+	slowest, slowestWhat := 0.0, ""
 	lemmasProved := 0
 	for _, r := range all {
 		for _, f := range r.Funcs {
@@ -243,6 +244,10 @@ func cmdCheck(args []string) int {
 		}
 		for _, q := range r.Queries {
 			solverSecs += q.Secs
+			if q.Secs > slowest {
+				slowest = q.Secs
+				slowestWhat = r.Job + "[" + paramStr(r.Params) + "] " + q.Kind + " " + q.Label + " (" + q.Solver + ")"
+			}
 			if q.Kind == "reach" {
 				reachQ++
 				rk := r.Job + "[" + paramStr(r.Params) + "]: reach \"" + q.Label + "\""
@@ -406,6 +411,8 @@ func cmdCheck(args []string) int {
 			"bounds":                         bounds,
 			"outside_claim":                  spec.Outside,
 			"solver_time_s":                  solverSecs,
+			"slowest_query_s":                slowest,
+			"slowest_query":                  slowestWhat,
 			"solvers":                        sn,
 			"instances":                      len(all),
 			"package_load_s":                 loadWall,
@@ -419,8 +426,8 @@ func cmdCheck(args []string) int {
 	os.MkdirAll(filepath.Join(outDir, "evidence"), 0755)
 	eb, _ := json.MarshalIndent(ev, "", " ")
 	os.WriteFile(filepath.Join(outDir, "evidence", prop+".json"), eb, 0644)
-	fmt.Printf("%s tier=%s instances=%d obligations=%d discharged=%d reach-labels=%d/%d violations=%d problems=%d solver=%.1fs wall=%.1fs\n",
-		prop, *tier, len(all), obligations, discharged, reachWitnessed, reachLabels, violations, len(problems), solverSecs, wall)
+	fmt.Printf("%s tier=%s instances=%d obligations=%d discharged=%d reach-labels=%d/%d violations=%d problems=%d solver=%.1fs slowest=%.1fs wall=%.1fs\n",
+		prop, *tier, len(all), obligations, discharged, reachWitnessed, reachLabels, violations, len(problems), solverSecs, slowest, wall)
 	if violations > 0 {
 		return 1
 	}
